@@ -210,7 +210,7 @@ def known_match(pid, cls, known):
 
 
 PROTECTED = ("board", "init", "boot", "rslog", "inflags", "motor", "rstimes", "rspos", "cfg", "start", "sentbytes",
-             "connected", "resolve", "calllog", "rsmargin", "physpos", "rsmanual", "inlevel", "relflags", "intype", "staircase", "relstate", "map", "sign", "stack", "conn", "flashfill", "flashset")
+             "connected", "resolve", "calllog", "rscancel", "rsmargin", "physpos", "rsmanual", "inlevel", "relflags", "intype", "staircase", "relstate", "map", "sign", "stack", "conn", "flashfill", "flashset")
 
 
 def shrink_case(spec, impl_exe, model_cmd, case, pred):
